@@ -13,13 +13,22 @@ from harness.common import ImplRaised, drv, guarded, impl, run_check
 PID = "C07"
 THEOREMS = ["merger_eq_spec", "mergerFrom_spec", "merge_buffer_independent", "merge_comm", "merge_assoc", "merge_sum",
             "merge_pointwise", "merger_stream_sorted", "breakLoop_spec", "breakpoints_contract",
-            "merger_agg_eq_spec", "mergerAggFrom_spec", "merge_agg_comm", "merge_agg_buffer_independent", "groupAgg_sum", "groupAgg_eq_of"]
-LEVELS = {"merge": "top", "refuses": "top", "limits": "top", "breakpoints": "unit", "agg": "top", "mixed_dtypes": "top", "cli_merge": "top"}
+            "merger_agg_eq_spec", "mergerAggFrom_spec", "merge_agg_comm", "merge_agg_buffer_independent", "groupAgg_sum", "groupAgg_eq_of",
+            # the refusal clause (Props/C07Compat.lean)
+            "compat_accepts_iff", "compat_accepts_same", "compat_same_accepts", "merge_refuses", "fastpath_sound",
+            "uniform_table_unique", "uniformChrom_unique", "sorted_ext", "rows_inj", "compat_ok_iff", "legacy_fastpath_unsound"]
+LEVELS = {"merge": "top", "refuses": "top", "compat": "top", "limits": "top", "breakpoints": "unit", "agg": "top", "mixed_dtypes": "top", "cli_merge": "top"}
 DESCRIBE = {
     "merge": "cooler.merge_coolers(out, inputs, mergebuf) for EVERY mergebuf 1..sum(nnz)+1 and every order of the inputs, plus a "
              "nested merge, vs Lean `mergeSpec` (= streaming `merger` for any valid partition, theorem merger_eq_spec); recorded "
              "sum vs `total`; output judged by the C02 raw monitor",
     "refuses": "inputs differing in bin table, resolution, chromosome set or storage mode must be refused with an error",
+    "compat": "WHICH lists of inputs are merged and which are refused: lists of 2 and 3 coolers (differing input first / in the middle / last, "
+              "identical inputs) over every valid segmentation of <=2 small chromosomes, fixed-width tables of different widths over equal "
+              "chromosome sizes, tables equal but for the last bin, same lengths under other names, same names in another order, one-bin "
+              "chromosomes, both storage modes; real cooler.merge_coolers (and `cooler merge` for a slice) merged/refused vs Lean "
+              "`mergeCompat` (= `allSame`: same storage mode, names and bin table as the first input — theorem compat_accepts_iff; the "
+              "bin-size shortcut is sound by fastpath_sound over C20.getBinsize_truthful); a merged output carries the inputs' bin table",
     "limits": "values near the limits of the value dtype: the stored value equals the exact aggregate or the call errs",
     "breakpoints": "contract `validBreakpoints` evaluated by Lean on the real merge_breakpoints(indexes, bufsize) output",
     "mixed_dtypes": "inputs whose count columns have DIFFERENT dtypes (int32/int64/float32/float64, values multiples of 1/4) in every order: "
@@ -30,8 +39,13 @@ DESCRIBE = {
 }
 RULE = ("k = 1..3 (quick) / 1..4 (thorough) inputs over a common table of n<=5 bins (empty, disjoint supports, identical supports, rows "
         "with leading empties, random), symmetric and square; mergebuf exhaustive 1..sum(nnz)+1; all k! input orders; nested merges; "
-        "non-trivial = >=2 inputs sharing at least one pixel; distinct by canonical JSON")
-EXHAUSTIVE = {"quick": False, "thorough": False}
+        "non-trivial = >=2 inputs sharing at least one pixel; distinct by canonical JSON.  Check `compat` is EXHAUSTIVE over its small "
+        "universe: every ordered pair (and triples with the odd one at each position) of valid segmentations with equal chromosome "
+        "sizes (1 chromosome of length <=5, 2 chromosomes of total length <=6; thorough <=6 / <=7), every ordered pair of ALL valid "
+        "segmentations of <=2 chromosomes of length <=3 (thorough <=4), every name variant and storage-mode mix of those; plus "
+        "seeded larger tables")
+# `compat` (and mergebuf in `merge`) enumerate exhaustively; the merge inputs themselves are sampled
+EXHAUSTIVE = {"quick": True, "thorough": True}
 TRUSTED = ["pandas concat/groupby(sort=True).aggregate and h5py dtype conversion are primitives",
            "merge partition (merge_breakpoints) is a free unit checked by contract"]
 ASSUMPTIONS = ["integer value columns; aggregation functions are modelled as List Int -> Int applied to a pixel's values in input order"]
@@ -296,19 +310,282 @@ def _cli_merge(case):
                 os.unlink(p)
 
 
-CHECKS = {"mixed_dtypes": _mixed_dtypes, "cli_merge": _cli_merge, "merge": _merge, "refuses": _refuses, "limits": _limits, "breakpoints": _breakpoints, "agg": _agg}
+# ---------------------------------------------------------------------------------------------
+# the refusal clause: which lists of inputs are merged and which are refused
+# ---------------------------------------------------------------------------------------------
+
+# chromosome names by NAME id (the Lean model's `Name`); deliberately not in lexicographic order
+_CNAMES = ["chr2", "chr10", "chr1", "scaf_7", "chrX", "chrM"]
+
+
+def _table(widths_per_chrom):
+    bins = []
+    for c, ws in enumerate(widths_per_chrom):
+        bins += gen.chrom_bins(c, ws)
+    return bins
+
+
+def _inp(bins, names=None, symm=True):
+    n = max(b[0] for b in bins) + 1
+    return {"symm": symm, "names": list(range(n)) if names is None else list(names), "bins": bins}
+
+
+def _write_input(path, x, value):
+    with gen.names_as([_CNAMES[k] for k in x["names"]]):
+        gen.write_cooler(path, x["bins"], [[0, 0, value]], symm=x["symm"])
+
+
+def _heads(path):
+    """the two stored heads the merge looks at, as the real cooler reports them (diagnosis only)"""
+    c = cooler.Cooler(path)
+    bs = c.binsize
+    return (None if bs is None else int(bs),
+            [[_CNAMES.index(str(nm)) if str(nm) in _CNAMES else 10 ** 6, int(L)] for nm, L in c.chromsizes.items()])
+
+
+def _compat(case):
+    pool = case["pool"]
+    d = gen.tmpdir()
+    tag = os.getpid()
+    paths = [os.path.join(d, f"c-{tag}-{k}.cool") for k in range(len(pool))]
+    dups = {}
+    out = os.path.join(d, f"c-{tag}-out.cool")
+    stats = {}
+
+    def count(k):
+        stats[k] = stats.get(k, 0) + 1
+    try:
+        sent = []
+        for k, x in enumerate(pool):
+            _write_input(paths[k], x, 1 + k)
+            bs, cs = impl(_heads, paths[k])
+            sent.append(dict(x, stored_binsize=bs, stored_chromsizes=cs))
+        for lst in case["lists"]:
+            m = drv().ask("C07.compat", inputs=[sent[k] for k in lst])
+            assert m["wf"], f"the generator produced an input outside the theorem's hypotheses: {[pool[k] for k in lst]}"
+            assert (m["compat"] == "ok") == m["all_same"], "theorem compat_accepts_iff contradicted (mergeCompat vs allSame)"
+            # an input listed twice is given as two files holding the same table
+            use, seen = [], set()
+            for k in lst:
+                if k in seen:
+                    if k not in dups:
+                        dups[k] = os.path.join(d, f"c-{tag}-{k}-dup.cool")
+                        _write_input(dups[k], pool[k], 100 + k)
+                    use.append(dups[k])
+                else:
+                    seen.add(k)
+                    use.append(paths[k])
+            if os.path.exists(out):
+                os.unlink(out)
+            if case.get("cli"):
+                from click.testing import CliRunner
+                from cooler.cli import cli
+                r = CliRunner().invoke(cli, ["merge", "-c", "5", out] + use)
+                merged, err = r.exit_code == 0, (None if r.exit_code == 0 else repr(r.exception)[:200])
+            else:
+                r = guarded(cooler.merge_coolers, out, use, mergebuf=5)
+                merged, err = r[0] == "ok", (None if r[0] == "ok" else r[1])
+            want = m["compat"] == "ok"
+            count("lists")
+            count("merged" if merged else f"refused.{m['decided_by']}")
+            if merged != want:
+                return {"mismatch": True, "list": lst, "inputs": [pool[k] for k in lst], "via": "cooler merge (CLI)" if case.get("cli") else "merge_coolers",
+                        "impl": "merged" if merged else f"refused ({err})", "model": "merge" if want else "refuse",
+                        "model_decided_by": m["decided_by"], "model_binsizes": m["binsizes"],
+                        "stored_heads_are_the_derived_ones": m["heads_match"], "model_on_the_stored_heads": m["compat_stored"],
+                        "note": ("inputs that differ in bin table, resolution or storage mode were merged" if merged else
+                                 "inputs with the same storage mode, chromosome names and bin table were not merged")}
+            x0 = pool[lst[0]]
+            if merged:
+                c = impl(cooler.Cooler, out)
+                t = impl(lambda: c.bins()[["chrom", "start", "end"]][:])
+                rows = [[str(a), int(s_), int(e)] for a, s_, e in zip(t["chrom"].astype(str), t["start"], t["end"])]
+                want_rows = [[_CNAMES[x0["names"][b[0]]], b[1], b[2]] for b in x0["bins"]]
+                if rows != want_rows or (c.storage_mode == "symmetric-upper") != x0["symm"]:
+                    return {"mismatch": True, "list": lst, "inputs": [pool[k] for k in lst], "what": "bin table / storage mode of the merged cooler",
+                            "impl": [rows, c.storage_mode], "expected": [want_rows, "symmetric-upper" if x0["symm"] else "square"]}
+            elif os.path.exists(out) and cooler.fileops.is_cooler(out):
+                return {"mismatch": True, "list": lst, "inputs": [pool[k] for k in lst],
+                        "note": "the merge raised but left a cooler at the output path (refused AND merged)"}
+        return {"stats": stats}
+    finally:
+        for p in paths + list(dups.values()) + [out]:
+            if os.path.exists(p):
+                os.unlink(p)
+
+
+def _prune(case, lists):
+    used = sorted({k for l in lists for k in l})
+    re_ = {k: i for i, k in enumerate(used)}
+    c = dict(case)
+    c["pool"] = [case["pool"][k] for k in used]
+    c["lists"] = [[re_[k] for k in l] for l in lists]
+    return c
+
+
+def _chunks(family, pool, lists, **kw):
+    size = max(120, 4 * len(pool))          # a pool member is written once per chunk
+    for a in range(0, len(lists), size):
+        yield "compat", dict(_prune({"family": family, "pool": pool}, lists[a:a + size]), **kw)
+
+
+def _odd_one_out(i, j, every):
+    t3 = [[j, i, i], [i, j, i], [i, i, j]]
+    return t3 if every else [t3[(i + j) % 3]]
+
+
+def _all_tables(maxlen, nchroms):
+    per = [ws for L in range(1, maxlen + 1) for ws in gen.compositions(L)]
+    return [_table(combo) for combo in itertools.product(per, repeat=nchroms)]
+
+
+def _swap2(bins):
+    """the two chromosomes of a 2-chromosome table in the other order"""
+    return [[0, s, e] for c, s, e in bins if c == 1] + [[1, s, e] for c, s, e in bins if c == 0]
+
+
+def _compat_cases(tier, rng):
+    thorough = tier == "thorough"
+    # (a) EQUAL chromosome sizes, every valid segmentation: all ordered pairs, the odd one out of three at every position.
+    #     This is where the bin-size shortcut (which never looks at the tables) has to be sound.
+    one, two, trip = (6, 7, 6) if thorough else (5, 6, 4)
+    for n in (1, 2):
+        for sizes in itertools.product(range(1, 7), repeat=n):
+            if sum(sizes) > (one if n == 1 else two):
+                continue
+            pool = [_inp(_table(combo)) for combo in itertools.product(*[list(gen.compositions(L)) for L in sizes])]
+            s = len(pool)
+            lists = [[i, j] for i in range(s) for j in range(s)]
+            for i in range(s):
+                for j in range(s):
+                    if i != j:
+                        lists += _odd_one_out(i, j, sum(sizes) <= trip)
+            lists += [[i, i, i] for i in range(min(s, 3))]
+            yield from _chunks("same-chromsizes", pool, lists)
+    # (b) ALL valid segmentations of <=2 chromosomes of length <=3 (4): every ordered pair (different chromosome counts,
+    #     lengths, fixed first / variable first, one-bin chromosomes ...)
+    m = 4 if thorough else 3
+    pool = [_inp(t) for n in (1, 2) for t in _all_tables(m, n)]
+    lists = [[i, j] for i in range(len(pool)) for j in range(len(pool)) if i != j]
+    yield from _chunks("all-pairs", pool, lists)
+    # (c) names: same lengths under other names, same names in another order (ids re-assigned or not)
+    for mm, full in ((2, True), (3, False)):
+        for t in _all_tables(mm, 2):
+            if not full and max(b[2] for b in t) < 3:
+                continue
+            v = [_inp(t, [0, 1]), _inp(t, [0, 2]), _inp(t, [2, 1]), _inp(t, [1, 0]), _inp(_swap2(t), [1, 0]), _inp(_swap2(t), [0, 1])]
+            if full:
+                lists = [[i, j] for i in range(6) for j in range(6)] + [l for j in range(1, 6) for l in _odd_one_out(0, j, True)]
+            else:
+                lists = [l for j in range(1, 6) for l in ([0, j], [j, 0])] + [l for j in (1, 3, 4) for l in _odd_one_out(0, j, False)]
+            yield from _chunks("names", v, lists)
+    pool = [_inp(t, [k]) for t in _all_tables(3, 1) for k in (0, 1)]
+    yield from _chunks("names", pool, [[i, i ^ 1] for i in range(len(pool))] + [[0, 1, 0], [2, 2, 3]])
+    # (d) storage modes
+    for mm, full in ((2, True), (3, False)):
+        for n in (1, 2):
+            for t in _all_tables(mm, n):
+                if not full and max(b[2] for b in t) < 3:
+                    continue
+                pool = [_inp(t, symm=True), _inp(t, symm=False)]
+                lists = [[0, 1], [1, 0], [1, 1], [0, 0, 1], [0, 1, 0], [1, 0, 0], [1, 1, 0], [1, 0, 1], [0, 1, 1]] if full else \
+                        [[0, 1], [1, 0], [[0, 0, 1], [0, 1, 0], [1, 0, 0], [1, 1, 1]][len(t) % 4]]
+                yield from _chunks("modes", pool, lists)
+    # (e) fixed-width tables of different widths over the same chromosome sizes (larger genomes)
+    sizes_list = [[L] for L in (range(1, 15) if thorough else (7, 10, 12))]
+    for _ in range(10 if thorough else 3):
+        sizes_list.append([rng.randint(1, 12) for _ in range(rng.randint(2, 3))])
+    for sizes in sizes_list:
+        seen, pool = set(), []
+        for b in range(1, max(sizes) + 2):
+            t = gen.uniform_bins(sizes, b)
+            if str(t) not in seen:
+                seen.add(str(t))
+                pool.append(_inp(t))
+        lists = [[i, j] for i in range(len(pool)) for j in range(len(pool))]
+        yield from _chunks("widths", pool, lists)
+    #     tables equal except for the LAST bin of the LAST chromosome; a moved inner boundary; a re-cut first chromosome
+    for _ in range(150 if thorough else 30):
+        t = gen.random_segmentation(rng, rng.randint(1, 3), 24)
+        longer = [list(b) for b in t]
+        longer[-1][2] += 1
+        pool = [_inp(t), _inp(longer)]
+        if t[-1][2] - t[-1][1] > 1:
+            shorter = [list(b) for b in t]
+            shorter[-1][2] -= 1
+            pool.append(_inp(shorter))
+        inner = [k for k in range(len(t) - 1) if t[k][0] == t[k + 1][0] and t[k][2] - t[k][1] > 1]
+        if inner:
+            k = rng.choice(inner)
+            moved = [list(b) for b in t]
+            moved[k][2] -= 1
+            moved[k + 1][1] -= 1
+            pool.append(_inp(moved))
+        lists = [[0, 0]] + [l for j in range(1, len(pool)) for l in ([0, j], [j, 0])] + _odd_one_out(0, 1, True)
+        yield from _chunks("last-bin", pool, lists)
+    #     one bin per chromosome: no bin size is reported whatever the lengths, the tables themselves are compared
+    pool = [_inp(_table([[L] for L in Ls])) for n in (1, 2, 3) for Ls in itertools.product((3, 7), repeat=n)]
+    lists = [[i, j] for i in range(len(pool)) for j in range(len(pool))]
+    yield from _chunks("one-bin", pool, lists)
+    # (f) seeded larger genomes: a table, one altered copy, lists of 2..3 with the odd one anywhere
+    for _ in range(300 if thorough else 50):
+        n = rng.randint(1, 4)
+        t = gen.random_segmentation(rng, n, 24)
+        kind = rng.choice(["same", "width", "rename", "reorder", "mode", "drop", "recut"])
+        base, other = _inp(t), None
+        if kind == "same":
+            other = _inp(t)
+        elif kind == "width":
+            sizes = [max(b[2] for b in t if b[0] == c) for c in range(n)]
+            other = _inp(gen.uniform_bins(sizes, rng.randint(1, 13)))
+        elif kind == "rename":
+            names = list(range(n))
+            names[rng.randrange(n)] = 5
+            other = _inp(t, names)
+        elif kind == "reorder" and n >= 2:
+            names = list(range(n))
+            a, b_ = rng.sample(range(n), 2)
+            names[a], names[b_] = names[b_], names[a]
+            other = _inp(t, names)
+        elif kind == "mode":
+            other = _inp(t, symm=False)
+        elif kind == "drop" and n >= 2:
+            other = _inp([b for b in t if b[0] < n - 1])
+        else:
+            c = rng.randrange(n)
+            L = max(b[2] for b in t if b[0] == c)
+            other = _inp([b for b in t if b[0] < c] + gen.chrom_bins(c, gen._randcomp(rng, L)) + [b for b in t if b[0] > c])
+        k = rng.randint(2, 3)
+        lst = [0] * k
+        lst[rng.randrange(k)] = 1
+        yield from _chunks("seeded", [base, other], [lst, [1, 0]])
+    # (g) the command line: `cooler merge` on a slice of the above
+    pool = [_inp(_table(combo)) for combo in itertools.product(list(gen.compositions(2)), list(gen.compositions(3)))]
+    lists = [[i, j] for i in range(len(pool)) for j in range(len(pool))] + [l for j in range(1, len(pool)) for l in _odd_one_out(0, j, True)]
+    yield from _chunks("cli", pool, lists if thorough else lists[::2], cli=True)
+    t = _table([[2, 2, 1], [2, 1]])
+    v = [_inp(t, [0, 1]), _inp(t, [0, 2]), _inp(t, [1, 0]), _inp(_swap2(t), [1, 0]), _inp(t, symm=False), _inp(gen.uniform_bins([5, 3], 3))]
+    yield from _chunks("cli", v, [[i, j] for i in range(6) for j in range(6) if thorough or (i + j) % 2 == 0 or i == 0], cli=True)
+
+
+CHECKS = {"mixed_dtypes": _mixed_dtypes, "cli_merge": _cli_merge, "merge": _merge, "refuses": _refuses, "limits": _limits, "breakpoints": _breakpoints, "agg": _agg,
+          "compat": _compat}
 
 
 def nontrivial(name, case):
     if name == "merge":
         keys = [set((p[0], p[1]) for p in px) for px in case["inputs"]]
         return len(keys) >= 2 and any(keys[a] & keys[b] for a in range(len(keys)) for b in range(a))
+    if name == "compat":
+        return any(len(set(l)) >= 2 for l in case["lists"])
     return True
 
 
 def distribution(name, case):
     if name == "merge":
         yield f"merge.k={len(case['inputs'])}.{'symm' if case['symm'] else 'square'}"
+    if name == "compat":
+        yield f"compat.family={case.get('family')}"
 
 
 def _inputs(rng, n, symm, k):
@@ -392,6 +669,7 @@ def cases(tier, rng):
         tot = sum(len(x) for x in ins)
         yield "agg", {"n": n, "inputs": ins, "mergebufs": sorted({1, 2, rng.randint(1, tot + 1), tot + 1}),
                       "agg": ["max", "min", "sum", "first", "last", "count", "range", "twice"][t % 8]}
+    yield from _compat_cases(tier, rng)
 
 
 def shrink(name, case):
@@ -405,6 +683,14 @@ def shrink(name, case):
             for k in range(len(ins[a])):
                 c = dict(case); c["inputs"] = [x if t != a else x[:k] + x[k + 1:] for t, x in enumerate(ins)]
                 yield c
+    if name == "compat":
+        ls = case["lists"]
+        if len(ls) > 1:
+            yield _prune(case, ls[:len(ls) // 2])
+            yield _prune(case, ls[len(ls) // 2:])
+        elif ls and len(ls[0]) > 2:
+            for a in range(len(ls[0])):
+                yield _prune(case, [ls[0][:a] + ls[0][a + 1:]])
 
 
 def escalate(name, case, rng):
